@@ -61,6 +61,10 @@ pub struct Req {
     pub path: String,
     pub kind: String,
     pub mutate_before: Option<Mutation>,
+    /// (wave 18) the request asks for `Range: bytes=0-<n>` with n far behind the end of any file: the whole file is the
+    /// answer either way — 200, or 206 with the range clamped (RFC 9110 14.1.2) — never 416
+    #[serde(default)]
+    pub range_beyond_end: bool,
 }
 #[derive(Clone, Debug, Serialize, Deserialize)]
 pub struct Scenario {
@@ -258,7 +262,7 @@ pub fn generate(_cfg: &RunCfg, _out: &mut Outcome) -> Scenario {
             }
         };
         let path = if path.is_empty() { "/".to_string() } else { path };
-        reqs.push(Req { method: method.into(), path, kind: kind.into(), mutate_before });
+        reqs.push(Req { method: method.into(), path, kind: kind.into(), mutate_before, range_beyond_end: t::chance(1, 10) });
     }
     Scenario { files, outside, mount, omit, reqs, second, mount_via: t::weighted(&[6, 1, 1, 1, 1]) as u8 }
 }
@@ -572,7 +576,8 @@ fn execute(sc: &Scenario, out: &mut Outcome) {
                 }
             }
             let cl = c.as_mut().unwrap();
-            cl.send(format!("{} {} HTTP/1.1\r\nHost: s\r\n\r\n", r.method, r.path).as_bytes(), 0);
+            let range = if r.range_beyond_end { "Range: bytes=0-99999999\r\n" } else { "" };
+            cl.send(format!("{} {} HTTP/1.1\r\nHost: s\r\n{range}\r\n", r.method, r.path).as_bytes(), 0);
             let resp = cl.recv(r.method == "HEAD", DEFAULT_TIMEOUT).await;
             let ok = resp.is_ok();
             o.borrow_mut().push(resp);
@@ -617,7 +622,14 @@ fn execute(sc: &Scenario, out: &mut Outcome) {
         out.states.push(format!("{}|{}|{}", r.kind, resp.status, r.mutate_before.as_ref().map(|m| format!("{m:?}").split('(').next().unwrap_or("").to_string()).unwrap_or_else(|| "-".into())));
         match expected.get(&key) {
             Some((mime, bytes)) => {
-                if resp.status != 200 {
+                if r.range_beyond_end {
+                    out.probe("c19.range_beyond_the_end");
+                }
+                // (a range on an empty file is unsatisfiable: a server that knows ranges may say 416 there, and only there)
+                if r.range_beyond_end && bytes.is_empty() && resp.status == 416 {
+                    continue;
+                }
+                if resp.status != 200 && !(r.range_beyond_end && resp.status == 206) {
                     out.violate("serves-its-files", format!("{}/status-{}", r.kind, resp.status), format!("{desc}: expected the start-up content of that file, got {}", resp.status));
                     return;
                 }
